@@ -162,7 +162,9 @@ impl<'a> DataParser<'a> {
             return;
         }
 
-        if self.current_element.len() > 0 {
+        // Note that we consider whitespace-only leftovers to be empty, just like
+        // `parse_char` does, so that e.g. `DATA "a" :` doesn't get an extra element.
+        if !self.current_element.trim().is_empty() {
             self.push_current_element();
         } else if self.elements.len() == 0 {
             self.push_current_element();
